@@ -11,6 +11,21 @@
 //	                 Ops: add:V pop front peek:N each:P clear len empty
 //	S <op;…>         stack history.  Ops: push:V addv:V empty clear top peek:N pop each:P len slice
 //
+// Bulk ops (one op = many calls, observed once at the end; used by the scale streams, where a
+// per-call observation would make the line and the replay quadratic):
+//
+//	S: pushn:N:B addn:N:B (N calls Push/Add of B+1 … B+N)   popn:N (N calls Pop)   peeks:A+B+… (Peek at each offset)
+//	Q: addn:N:B   popn:N   peeks:A+B+…
+//	L: addn:K:N:B (ONE call c.Add(B+1 … B+N))  pushn:K:N:B (N calls c.Push)  rmn:K:N (N calls c.Remove)
+//	   nextn:K:N (N calls c.Next)  peeks:A+B+…
+//
+// popn/rmn print q<values in call order> (Pop: v when ok, -1-v when not ok), pushn/addn print u,
+// nextn prints n<number of true results>, peeks prints p<v:ok,…>; a panic ends the bulk op and
+// its kind is appended (the calls made before it stay made).
+//
+// Lists of more than 200 values are printed as a digest on both sides:
+// #<len>:<FNV-1a-64 over the values>:<first three>~<last three>.
+//
 // Predicates P: eN (x == N), gN (x > N), lN (x < N), t (always), f (never).
 //
 // Output: one group per op, joined by ';'.  A group is the op's own result followed by the
@@ -30,6 +45,7 @@
 package main
 
 import (
+	"fmt"
 	"strconv"
 	"strings"
 	"sync/atomic"
@@ -67,11 +83,68 @@ func call(f func() string) string {
 	return r
 }
 
+// digestAbove: longer lists are printed as length, hash and both ends (the OCaml driver prints
+// the model's and the reference's lists with the same rule).
+const digestAbove = 200
+
+func fnv(xs []int) uint64 {
+	h := uint64(14695981039346656037)
+	for _, x := range xs {
+		h ^= uint64(int64(x))
+		h *= 1099511628211
+	}
+	return h
+}
+
 func ints(xs []int) string {
 	if len(xs) == 0 {
 		return "."
 	}
+	if n := len(xs); n > digestAbove {
+		return fmt.Sprintf("#%d:%016x:%s~%s", n, fnv(xs), tr.Ints(xs[:3]), tr.Ints(xs[n-3:]))
+	}
 	return tr.Ints(xs)
+}
+
+const maxBulk = 1 << 20 // a bulk count beyond this is not an input of the generators
+
+// bulk parses the N and B of pushn:N:B / addn:N:B.
+func bulk(ns, bs string) (n, b int, ok bool) {
+	n, ok1 := atoi(ns)
+	b, ok2 := atoi(bs)
+	return n, b, ok1 && ok2 && n >= 0 && n <= maxBulk
+}
+
+// many runs f up to n times; a panic ends it and its kind is returned.
+func many(n int, f func(i int)) string {
+	return pk(tr.Catch(func() {
+		for i := 0; i < n; i++ {
+			f(i)
+		}
+	}))
+}
+
+type peeker interface{ Peek(int) (int, bool) }
+
+// peeks: Peek at every offset of A+B+…, one result.
+func peeks(p peeker, arg string) string {
+	offs, ok := vals(arg)
+	if !ok {
+		return "?"
+	}
+	var out []string
+	pn := many(len(offs), func(i int) {
+		v, ok := p.Peek(offs[i])
+		out = append(out, strconv.Itoa(v)+":"+tr.B(ok))
+	})
+	return "p" + strings.Join(out, ",") + pn
+}
+
+func popEnc(v int, ok bool) int {
+	if ok {
+		return v
+	}
+	return -1 - v
 }
 
 func pred(p string) (func(int) bool, bool) {
@@ -252,6 +325,48 @@ func execList(ops []string) string {
 			res = withCur(f[1], func(c *mlink.Cursor[int]) string { return "v" + strconv.Itoa(c.Remove()) })
 		case f[0] == "trunc" && len(f) == 2:
 			res = withCur(f[1], func(c *mlink.Cursor[int]) string { c.Truncate(); return "u" })
+		case f[0] == "addn" && len(f) == 4: // ONE call c.Add(B+1 … B+N)
+			if n, b, ok := bulk(f[2], f[3]); ok {
+				vs := make([]int, n)
+				for i := range vs {
+					vs[i] = b + 1 + i
+				}
+				res = withCur(f[1], func(c *mlink.Cursor[int]) string { c.Add(vs...); return "u" })
+				for i := range vs {
+					vs[i] = -77
+				}
+			}
+		case f[0] == "pushn" && len(f) == 4: // N calls c.Push
+			if n, b, ok := bulk(f[2], f[3]); ok {
+				res = withCur(f[1], func(c *mlink.Cursor[int]) string {
+					return "u" + many(n, func(i int) { c.Push(b + 1 + i) })
+				})
+				if strings.HasPrefix(res, "uP") {
+					res = res[1:]
+				}
+			}
+		case f[0] == "rmn" && len(f) == 3: // N calls c.Remove
+			if n, ok := atoi(f[2]); ok && n >= 0 && n <= maxBulk {
+				res = withCur(f[1], func(c *mlink.Cursor[int]) string {
+					var vs []int
+					p := many(n, func(int) { vs = append(vs, c.Remove()) })
+					return "q" + ints(vs) + p
+				})
+			}
+		case f[0] == "nextn" && len(f) == 3: // N calls c.Next
+			if n, ok := atoi(f[2]); ok && n >= 0 && n <= maxBulk {
+				res = withCur(f[1], func(c *mlink.Cursor[int]) string {
+					t := 0
+					p := many(n, func(int) {
+						if c.Next() {
+							t++
+						}
+					})
+					return "n" + strconv.Itoa(t) + p
+				})
+			}
+		case f[0] == "peeks" && len(f) == 2:
+			res = peeks(lst, f[1])
 		case op == "clear":
 			res = call(func() string { lst.Clear(); return "u" })
 		case f[0] == "peek" && len(f) == 2:
@@ -293,6 +408,21 @@ func execQueue(kind string, ops []string) string {
 			if v, ok := atoi(f[1]); ok {
 				res = call(func() string { q.Add(v); return "u" })
 			}
+		case f[0] == "addn" && len(f) == 3:
+			if n, b, ok := bulk(f[1], f[2]); ok {
+				res = "u" + many(n, func(i int) { q.Add(b + 1 + i) })
+				if strings.HasPrefix(res, "uP") {
+					res = res[1:]
+				}
+			}
+		case f[0] == "popn" && len(f) == 2:
+			if n, ok := atoi(f[1]); ok && n >= 0 && n <= maxBulk {
+				var vs []int
+				p := many(n, func(int) { v, ok := q.Pop(); vs = append(vs, popEnc(v, ok)) })
+				res = "q" + ints(vs) + p
+			}
+		case f[0] == "peeks" && len(f) == 2:
+			res = peeks(q, f[1])
 		case op == "pop":
 			res = call(func() string { v, ok := q.Pop(); return "p" + strconv.Itoa(v) + ":" + tr.B(ok) })
 		case op == "front":
@@ -335,6 +465,28 @@ func execStack(ops []string) string {
 			if v, ok := atoi(f[1]); ok {
 				res = call(func() string { s.Add(v); return "u" })
 			}
+		case (f[0] == "pushn" || f[0] == "addn") && len(f) == 3:
+			if n, b, ok := bulk(f[1], f[2]); ok {
+				add := f[0] == "addn"
+				res = "u" + many(n, func(i int) {
+					if add {
+						s.Add(b + 1 + i)
+					} else {
+						s.Push(b + 1 + i)
+					}
+				})
+				if strings.HasPrefix(res, "uP") {
+					res = res[1:]
+				}
+			}
+		case f[0] == "popn" && len(f) == 2:
+			if n, ok := atoi(f[1]); ok && n >= 0 && n <= maxBulk {
+				var vs []int
+				p := many(n, func(int) { v, ok := s.Pop(); vs = append(vs, popEnc(v, ok)) })
+				res = "q" + ints(vs) + p
+			}
+		case f[0] == "peeks" && len(f) == 2:
+			res = peeks(s, f[1])
 		case op == "empty":
 			res = call(func() string { return "b" + tr.B(s.IsEmpty()) })
 		case op == "clear":
